@@ -67,6 +67,9 @@ def slices(tier):
         # second derivatives through the elementary functions and atan2 with BOTH operands depending on w (w = 0 at the point)
         Slice("math-second", [W, DV, DV2], MATH | {"atan2", "add", "mul"}, 5, lits=[LIT["one"]], jets=dict(scalar, seeds={"w": ("dv", "dv2")}), fixed={"w": 0},
               levels=[{"add", "mul"}, MATH | {"atan2"}, G1, {"gateaux2"}, FIN], **dict(kw, chain="strict")),
+        # powers whose exponent depends on the coefficient (w = 2, w1 = 3 at the point): w**w, w**w1, 2**w ...
+        Slice("pow-var", [W, ("w1", ()), DV], {"pow", "mul", "add"}, 4, lits=[LIT["two"]], jets=mathj, fixed={"w": 2, "w1": 3},
+              levels=[{"pow", "mul", "add"}, {"pow", "mul"}, G1 | {"gateaux2"}, FIN], **dict(kw, chain="strict")),
         Slice("userd", [W, DV, F, G], A1, 3, lits=[LIT["two"]], jets=userd, levels=[{"mul", "add", "pow", "div", "abs"}, G1, FIN], **kw),
     ]
     if not q:
